@@ -450,6 +450,21 @@ func c07Lake(c *rt.Ctx, o *rt.Obs) {
 	o.Count("pool_objects", int64(len(objs)))
 	c.Max("max_pool_objects", int64(len(objs)))
 	opts := prog.Opts{InputOrder: prog.OrdSorted, InputKeys: []prog.SortKey{{Path: []string{key}, Desc: desc}}, Sorted: key, SortedDesc: desc, From: "from p"}
+	if r.Chance(1, 3) {
+		// an explicit sort on the pool key, in the pool's direction or against it
+		// (the optimizer drops a sort that the source already provides)
+		sdesc := r.Chance(1, 2)
+		if key == prog.FK && !desc {
+			sdesc = false // an ascending k pool may hold nulls; see the note on descending orders
+		}
+		opts.InputKeys = []prog.SortKey{{Path: []string{key}, Desc: sdesc}}
+		opts.SortedDesc = sdesc
+		opts.From = "from p | sort " + key
+		if sdesc {
+			opts.From += " desc"
+		}
+		o.Count("lake_explicit_sort_on_pool_key", 1)
+	}
 	p := prog.Gen(r, opts)
 	if strings.Contains(p.Text, "with -limit") || strings.Contains(p.Text, "join") && !r.Chance(1, 5) {
 		// see c07Gen: the same two known defects are reachable through the
